@@ -29,6 +29,11 @@ def own_obligations(tier):
                      no_std=["--pointer-overflow-check", "--signed-overflow-check", "--undefined-shift-check"],
                      encodes=["sched_run", "ABTI_ythread_schedule", "ABTI_sched_has_to_stop", "ABTI_sched_has_unit", "ABTI_sched_finish", "ABT_thread_resume", "ABTI_ythread_resume_and_push", "ABTI_thread_terminate"],
                      bounds="<=5 scheduler iterations (cut by assumption), <=2 units, event_freq 1", symbolic="when the blocked ULT is resumed (before each pool query / event check), when the join request becomes visible", timeout=400))
+    for sc in ("randws", "prio", "basic"):
+        for n in ((2, 3, 4) if sc == "randws" else (3,)):
+            o.append(Obl("sched_pick_%s_%dpools" % (sc, n), "C01/schedpick.c", "real sched_run of sched/%s.c with %d pools and one unit queued in a solver-chosen pool (pools, scheduling step and stop decision are models): every pool is asked within a bounded number of rounds, the unit is popped and scheduled exactly once whichever pool holds it (RANDWS: rand_r returns consecutive integers from a symbolic start)" % (sc, n),
+                         defs=['SCHED_C="sched/%s.c"' % sc, "NPOOLS=%d" % n], unwind=2 * n + 4, backend="cadical", no_std=["--pointer-overflow-check"],
+                         encodes=["sched_run (sched/%s.c)" % sc], bounds="%d pools, 1 unit, <= %d rounds" % (n, 2 * n + 2), symbolic="pool holding the unit, start of the rand_r sequence"))
     o.append(Obl("main_sched_func", "C01/mainsched.c", "real thread_main_sched_func around ANY scheduler run function (stub: runs some queued units, may return at any time with units still queued -- as basic_wait and user schedulers do --, join/cancel requests arrive at solver-chosen calls): the stream's scheduler ULT finishes only on cancel, or on a finish request with no unit queued and none blocked",
                  unwind=6, cut_loops=["thread_main_sched_func@while \\(1\\):6"], object_bits=11, restrict_fp=[("thread_main_sched_func.function_pointer_call.1", ["run_stub"])], backend="cadical", no_std=["--pointer-overflow-check"],
                  encodes=["thread_main_sched_func"], bounds="<=3 queued + 1 blocked unit, <=6 calls of the run function (cut by assumption)", symbolic="units run per call, when the run function returns, when join/cancel arrive"))
